@@ -203,7 +203,12 @@ func (g *Gen) fill(v reflect.Value, s oas.M, depth int) {
 	}
 	switch t.Kind() {
 	case reflect.String:
-		v.SetString(g.str())
+		if f, _ := s["format"].(string); f == "date" && g.Tag == "" {
+			// goag maps `format: date` to a plain string: the caller supplies a full-date
+			v.SetString(fmt.Sprintf("%04d-%02d-%02d", 1+g.Rng.Intn(9999), 1+g.Rng.Intn(12), 1+g.Rng.Intn(28)))
+		} else {
+			v.SetString(g.str())
+		}
 	case reflect.Bool:
 		v.SetBool(g.Rng.Intn(2) == 0)
 	case reflect.Int, reflect.Int64:
